@@ -101,6 +101,7 @@ func runSmall(c *core.Ctx) []core.Obligation {
 	smallWave20(c, b)
 	smallWave20b(c, b)
 	smallWave21(c, b)
+	smallFieldIndexBounded(c, b)
 	smallStringOptionNull(c, b)
 	smallStringOptionMarshaler(c, b)
 	return b.out
@@ -5656,4 +5657,140 @@ func smallWave21(c *core.Ctx, b *ob) {
 			}
 		}
 	}
+}
+
+// S97 — the struct decoder finds a field by its number in a table; field numbers go up to 2^29-1
+// (struct tags choose them), so a table with one slot per number up to the largest one declared
+// costs 4 GB for a type with one high-numbered field, whatever the input. The table's length is
+// capped by a constant; the fields beyond it are found another way.
+func smallFieldIndexBounded(c *core.Ctx, b *ob) {
+	props := []string{"C07"}
+	key := "proto:field-index-bounded"
+	fn := c.Lookup("proto.structDecodeFuncOf")
+	if fn == nil {
+		b.addP(props, core.Undecided, key, "-", "proto.structDecodeFuncOf not found")
+		return
+	}
+	n, bad := 0, ""
+	for _, blk := range fn.Blocks {
+		for _, in := range blk.Instrs {
+			ms, ok := in.(*ssa.MakeSlice)
+			if !ok {
+				continue
+			}
+			fromNumbers := dependsOn(ms.Len, func(x ssa.Value) bool {
+				call, ok := x.(*ssa.Call)
+				return ok && strings.HasSuffix(calleeName(call.Common()), "structField).fieldNumber")
+			})
+			if !fromNumbers {
+				continue
+			}
+			n++
+			capped := false
+			// min(x, K) / a φ merging with a constant under a comparison with a constant
+			if dependsOn(ms.Len, func(x ssa.Value) bool {
+				if call, ok := x.(*ssa.Call); ok {
+					if bi, isB := call.Common().Value.(*ssa.Builtin); isB && bi.Name() == "min" {
+						for _, a := range call.Common().Args {
+							if _, isK := constInt(a); isK {
+								return true
+							}
+						}
+					}
+				}
+				return false
+			}) {
+				capped = true
+			}
+			for _, e := range dominatingEdges(blk) {
+				if bo, ok := e.ifi.Cond.(*ssa.BinOp); ok {
+					if _, isK := constInt(bo.Y); isK && (bo.Op == token.LSS || bo.Op == token.LEQ || bo.Op == token.GTR || bo.Op == token.GEQ) {
+						capped = true
+					}
+				}
+			}
+			if !capped {
+				bad = c.InstrPos(ms)
+			}
+		}
+	}
+	// the two halves of the lookup meet: what is not in the table is looked up in the map — the map
+	// lookup sits on the false edge of the table's bounds test and under no further condition
+	if dec := c.Lookup("proto.structDecodeFuncOf$1"); dec != nil {
+		k2 := "proto:field-lookup-halves-meet"
+		var lookups []*ssa.Lookup
+		for _, blk := range dec.Blocks {
+			for _, in := range blk.Instrs {
+				if lk, ok := in.(*ssa.Lookup); ok && isMapType(lk.X.Type()) {
+					lookups = append(lookups, lk)
+				}
+			}
+		}
+		switch {
+		case len(lookups) == 0 && n > 0 && bad == "":
+			b.addP([]string{"C07", "C03", "C12"}, core.Undecided, k2, c.FuncPos(dec), "the field table is capped but no map lookup for the other fields was found")
+		case len(lookups) > 0:
+			gap := ""
+			for _, lk := range lookups {
+				conds := 0
+				var why []string
+				onBoundsFalse := false
+				for _, e := range dominatingEdges(lk.Block()) {
+					bo, ok := e.ifi.Cond.(*ssa.BinOp)
+					if !ok {
+						continue
+					}
+					if _, isLen := lenArg(bo.Y); isLen && bo.Op == token.LSS && e.succ == 1 {
+						onBoundsFalse = true
+						continue
+					}
+					if _, isLen := lenArg(bo.Y); isLen {
+						continue
+					}
+					if k, isK := constInt(bo.Y); isK && k == 0 && bo.Op == token.GEQ {
+						continue // i >= 0
+					}
+					if isNilConst(bo.Y) || isNilConst(bo.X) {
+						continue // error tests
+					}
+					if !isIntegerType(bo.X.Type()) {
+						continue
+					}
+					// conditions of the enclosing loop and error tests do not involve the field number
+					if dependsOn(bo, func(x ssa.Value) bool { return x == lk.Index }) || dependsOn(bo.X, func(x ssa.Value) bool {
+						cv, ok := x.(*ssa.Convert)
+						return ok && cv.X == lk.Index
+					}) {
+						conds++
+						why = append(why, c.InstrPos(bo))
+					}
+				}
+				_ = why
+				if !onBoundsFalse && conds == 0 {
+					continue // looked up unconditionally: fine
+				}
+				if conds > 0 {
+					gap = c.InstrPos(lk) + " (further condition at " + strings.Join(why, ", ") + ")"
+				}
+			}
+			if gap != "" {
+				b.addP([]string{"C07", "C03", "C12"}, core.Violation, k2, gap, "the map of high-numbered fields is consulted under a further condition on the field number, besides \"not in the table\": the numbers that satisfy neither (the first one beyond the table, for an off-by-one) are in neither half of the lookup, and such a field is skipped as unknown — it silently decodes to its zero value")
+			} else {
+				b.addP([]string{"C07", "C03", "C12"}, core.Discharged, k2, c.FuncPos(dec), "every number outside the table is looked up in the map")
+			}
+		}
+	}
+	switch {
+	case n == 0:
+		b.addP(props, core.Discharged, key, c.FuncPos(fn), "no table sized by the declared field numbers")
+	case bad != "":
+		b.addP(props, core.Violation, key, bad, "structDecodeFuncOf allocates a lookup table with one slot per field number up to the largest one the type declares, without a cap: struct{A int `protobuf:\"varint,536870911,opt\"`} makes the first Unmarshal of a 2-byte input allocate 4 GB — memory unrelated to the input length")
+	default:
+		b.addP(props, core.Discharged, key, c.FuncPos(fn), "the table sized by field numbers is capped by a constant")
+	}
+}
+
+func isIntegerType(t types.Type) bool {
+	bt, ok := t.Underlying().(*types.Basic)
+	return ok && bt.Info()&types.IsInteger != 0
 }
